@@ -1,6 +1,6 @@
 """C06 - parent/children form a consistent tree over ids."""
 import random
-from . import core, params, cells, tree
+from . import core, params, cells, tree, session
 
 
 def confirm(e):
@@ -72,6 +72,7 @@ def run(v):
             v.violation(clauses[0], det, {"check": "C06", "event": {k: e[k] for k in ("ev", "cell", "a", "b", "m") if k in e}}, {"clause": clauses[0]})
         else:
             v.drift.append(det)
+    session.run(d, v, quick, ("refine", "refineto", "coarsen"), "C06.session", core.seed())
     v.exhaustive = False
     v.assumptions += ["ids are read through the layout of A5Layout; a flagged event is re-judged with the real deserialize before it counts",
                       "requests: every cell to depth %d x (children b in r-2..r+3, omitted, MaxRes+1; parent a in -2..r+2, omitted; compose), pattern cells at deep resolutions" % (3 if quick else 5)]
@@ -79,6 +80,8 @@ def run(v):
 
 
 def replay(v, obj):
+    if "session" in obj:
+        return session.replay_file(v, obj, "C06.session")
     e0 = obj["event"]
     cid = core.unnibs(e0["cell"])
     if e0["ev"] == "children":
